@@ -408,6 +408,7 @@ class ProgBase(HookMixin, ContextMixin, Process):
             raise ValueError(f'unknown item {item}')
 
     def _ret(self, idx, ret):
+        cmds = SUBCLASS_COMMANDS if self.PROGRAM.get('command_subclasses') else STOCK_COMMANDS
         kind = ret[0]
         if kind == 'branch':
             value = self.ctx.get(ret[1])
@@ -417,19 +418,19 @@ class ProgBase(HookMixin, ContextMixin, Process):
         if kind == 'continue':
             args = ret[2] if len(ret) > 2 and ret[2] else []
             kwargs = ret[3] if len(ret) > 3 and ret[3] else {}
-            return process_states.Continue(getattr(self, step_name(ret[1])), *dec(args), **dec(kwargs))
+            return cmds['Continue'](getattr(self, step_name(ret[1])), *dec(args), **dec(kwargs))
         if kind == 'wait':
             msg = ret[2] if len(ret) > 2 else None
             data = ret[3] if len(ret) > 3 else None
-            return process_states.Wait(getattr(self, step_name(ret[1])), msg, dec(data))
+            return cmds['Wait'](getattr(self, step_name(ret[1])), msg, dec(data))
         if kind == 'value':
             return dec(ret[1])
         if kind == 'stop':
-            return process_states.Stop(dec(ret[1]), ret[2])
+            return cmds['Stop'](dec(ret[1]), ret[2])
         if kind == 'unsuccessful':
             return plumpy.UnsuccessfulResult(ret[1])
         if kind == 'kill':
-            return process_states.Kill(MessageBuilder.kill(ret[1]))
+            return cmds['Kill'](MessageBuilder.kill(ret[1]))
         if kind == 'raise':
             exc = ProgError(ret[1])
             world.cur().extra.setdefault('raised', []).append(exc)
@@ -528,6 +529,26 @@ def _make_step(idx, is_async):
 
 
 _CLASS_COUNT = 0
+
+
+class Retry(process_states.Continue):
+    """Application-defined commands: subclasses of the library's commands mean what their base class means."""
+
+
+class WaitForUpload(process_states.Wait):
+    pass
+
+
+class Verdict(process_states.Stop):
+    pass
+
+
+class Abort(process_states.Kill):
+    pass
+
+
+STOCK_COMMANDS = {'Continue': process_states.Continue, 'Wait': process_states.Wait, 'Stop': process_states.Stop, 'Kill': process_states.Kill}
+SUBCLASS_COMMANDS = {'Continue': Retry, 'Wait': WaitForUpload, 'Stop': Verdict, 'Kill': Abort}
 
 
 class EagerWaiting(process_states.Waiting):
